@@ -94,19 +94,20 @@ type finding struct {
 }
 
 type childStats struct {
-	Done        bool             `json:"done"`
-	Evaluations int64            `json:"evaluations"`
-	Distinct    int64            `json:"distinct"`
-	Families    map[string]int64 `json:"families"`
-	OKDecodes   int64            `json:"ok_decodes"`
-	ErrDecodes  int64            `json:"err_decodes"`
-	Panics      int64            `json:"panics"`
-	MaxAlloc    int64            `json:"max_alloc_per_call"`
-	BigAllocs   int64            `json:"calls_over_128MiB"`
-	Decoders    int              `json:"decoders"`
-	LimitCases  int64            `json:"constructive_limit_cases"`
-	LimitRefuse int64            `json:"constructive_limit_cases_refused"`
-	Handoff     string           `json:"handoff,omitempty"` // "decoder:case index": continue after it in a fresh process
+	Done             bool             `json:"done"`
+	Evaluations      int64            `json:"evaluations"`
+	Distinct         int64            `json:"distinct"`
+	Families         map[string]int64 `json:"families"`
+	OKDecodes        int64            `json:"ok_decodes"`
+	ErrDecodes       int64            `json:"err_decodes"`
+	Panics           int64            `json:"panics"`
+	MaxAlloc         int64            `json:"max_alloc_per_call"`
+	BigAllocs        int64            `json:"calls_over_128MiB"`
+	RegistryCanaries int64            `json:"registry_canaries"`
+	Decoders         int              `json:"decoders"`
+	LimitCases       int64            `json:"constructive_limit_cases"`
+	LimitRefuse      int64            `json:"constructive_limit_cases_refused"`
+	Handoff          string           `json:"handoff,omitempty"` // "decoder:case index": continue after it in a fresh process
 }
 
 func lastCasePath(w int) string {
@@ -139,6 +140,7 @@ func superviseWorker(r *ev.Run, cfg props.Cfg, w, W int) {
 	resume := ""
 	handoffs := 0
 	defer os.Remove(lc + ".set")
+	defer os.Remove(lc + ".nocanary")
 	for attempt := 0; attempt < 15; attempt++ {
 		arg := fmt.Sprintf("run:%d:%d:%s:%s", w, W, lc, resume)
 		cmd := exec.Command(cfg.Self, "-prop", "C13", "-tier", cfg.Tier, "-seed", strconv.FormatInt(cfg.Seed, 10), "-child", arg)
@@ -183,6 +185,7 @@ func superviseWorker(r *ev.Run, cfg props.Cfg, w, W int) {
 						r.Count("decode_returned_error", st.ErrDecodes)
 						r.Count("panics_recovered", st.Panics)
 						r.Count("calls_over_128MiB", st.BigAllocs)
+						r.Count("app_registry_write_lock_canaries_passed", st.RegistryCanaries)
 						r.Max("max_alloc_bytes_per_call", st.MaxAlloc)
 						r.Count("decoders", int64(st.Decoders))
 						r.Count("constructive_limit_cases", st.LimitCases)
@@ -558,6 +561,32 @@ func (c *child) exec(input []byte, nontrivial bool) {
 	default:
 		c.stats.ErrDecodes++
 	}
+	// "terminates" includes what a decoder leaves behind: after a call that returned, the shared
+	// app registry must still be usable (re-registering a known app takes its write lock; it is
+	// a few instructions unless a decoder left the registry locked).
+	if c.stats.Evaluations%2048 == 0 && !c.noCanary() {
+		done := make(chan struct{})
+		go func() { channel.RegisterApp(gen.Payment2); close(done) }()
+		select {
+		case <-done:
+			c.stats.RegistryCanaries++
+		case <-time.After(60 * time.Second):
+			c.report(finding{Sig: "C13/registry-left-locked", What: "after decoder calls that had returned, registering an app blocked for more than a minute: a decoder left the app registry locked, every later decode that resolves an app hangs"}, input)
+			if c.lc != nil {
+				// established; the rest of this slice runs without the canary (each would cost a minute)
+				_ = os.WriteFile(c.lc.Name()+".nocanary", nil, 0o644)
+				c.handoff()
+			}
+		}
+	}
+}
+
+func (c *child) noCanary() bool {
+	if c.lc == nil {
+		return false
+	}
+	_, err := os.Stat(c.lc.Name() + ".nocanary")
+	return err == nil
 }
 
 func (c *child) handoff() {
